@@ -226,8 +226,52 @@ def run_case(R, rng, it):
         R.count("coarse_date_strings")
     if grouped:
         kw["groups"] = labels
+    check_case(R, rng, tix, cube, dtype, nodata, kw, begin, end, ids if grouped else None)
+
+
+def _enc(v):
+    """JSON form of a window bound / label that keeps its type (replay feeds the very same objects back)."""
+    if v is None:
+        return None
+    if isinstance(v, (pd.Timestamp, np.datetime64)):
+        return ["ts", str(pd.Timestamp(v))]
+    if isinstance(v, (bool, np.bool_)):
+        return ["bool", bool(v)]
+    if isinstance(v, (int, np.integer)):
+        return ["int", int(v)]
+    if isinstance(v, (float, np.floating)):
+        return ["float", float(v)]
+    return ["str", str(v)]
+
+
+def _dec(e):
+    if e is None:
+        return None
+    t, v = e
+    return {"ts": pd.Timestamp, "bool": bool, "int": int, "float": float, "str": str}[t](v)
+
+
+def check_case(R, rng, tix, cube, dtype, nodata, kw, begin, end, ids):
+    """``begin`` / ``end``: the instants the window bounds denote (None = open); ``ids``: dense group ids or None."""
+    import xarray as xr
+    import hdc.algo  # noqa
+
+    st = importlib.import_module("hdc.algo.ops.stats")
+    n = len(tix)
+    grouped = ids is not None
+    labels = kw.get("groups")
+    if ids is None:
+        ids = np.zeros(n, dtype=int)
+    ids = np.asarray(ids)
+    k = int(ids.max()) + 1
+    da = xr.DataArray(cube, dims=["y", "x", "time"], coords={"time": tix}, attrs={"nodata": nodata})
+    b_eff = tix[0] if begin is None else begin
+    e_eff = tix[-1] if end is None else end
+    inwin = (tix >= b_eff) & (tix <= e_eff)
     case = {"time": tix.values, "begin": None if begin is None else str(begin), "end": None if end is None else str(end),
-            "labels": None if labels is None else [str(v) for v in labels], "cube": cube, "dtype": dtype}
+            "labels": None if labels is None else [str(v) for v in labels], "cube": cube, "dtype": dtype, "nodata": nodata,
+            "kw_begin": _enc(kw.get("calibration_begin")), "kw_end": _enc(kw.get("calibration_end")),
+            "kw_groups": None if labels is None else [_enc(v) for v in labels], "ids": ids if grouped else None}
     strictly_inside = bool(inwin.sum() < n)
     R.evaluation()
     R.case(strictly_inside or k >= 2, tix.values, case["begin"], case["end"], case["labels"], cube)
@@ -352,4 +396,29 @@ def finalize(agg, tier):
 
 
 def replay(case, R):
-    R.inconclusive_because("C09 witnesses are re-run through the seeded shard (VERIF_SEED) - the case file holds axis/window/labels/cube for inspection")
+    if "kw_begin" not in case and "kw_groups" not in case:
+        if "labels" in case and "time" not in case:  # witness of a direct helper call
+            install_contracts(R)
+            import hdc.algo.accessors as acc
+            try:
+                acc.to_linspace(np.asarray(case["labels"]))
+            except ContractBroken as ex:
+                R.violation("C09:helper-contract", str(ex)[:300], case)
+            R.evaluation()
+            return
+        R.inconclusive_because("witness recorded before the replayable format: re-run the shard with the same VERIF_SEED")
+        return
+    install_contracts(R)
+    tix = pd.DatetimeIndex(np.asarray(case["time"]).astype("datetime64[ns]"))
+    cube = np.asarray(case["cube"]).astype(case["dtype"])
+    kw = {}
+    if case.get("kw_begin") is not None:
+        kw["calibration_begin"] = _dec(case["kw_begin"])
+    if case.get("kw_end") is not None:
+        kw["calibration_end"] = _dec(case["kw_end"])
+    if case.get("kw_groups") is not None:
+        kw["groups"] = [_dec(v) for v in case["kw_groups"]]
+    begin = None if case.get("begin") is None else pd.Timestamp(case["begin"])
+    end = None if case.get("end") is None else pd.Timestamp(case["end"])
+    ids = None if case.get("ids") is None else np.asarray(case["ids"]).astype(int)
+    check_case(R, np.random.default_rng(0), tix, cube, case["dtype"], float(case.get("nodata", -9999.0)), kw, begin, end, ids)
